@@ -64,8 +64,7 @@ def all_cases(tier, double=None):
     if key in _CACHE:
         return _CACHE[key]
     if tier == "quick":
-        cases = structure_cases(9) + deviation_cases(
-            True if double is None else double)
+        cases = structure_cases(9) + deviation_cases(bool(double))
     else:
         cases = structure_cases(11) + deviation_cases(
             True if double is None else double)
@@ -101,7 +100,10 @@ def cross_module_cases():
         sa = irgen.mk_section(12, ".data", intervals=[ba])
         mA = irgen.mk_module(13, "A", sections=[sa], symbols=[ya1, ya2, ya3],
                              entry=U(1),
-                             aux={"x": ("sequence<UUID>", [U(1), U(7)])})
+                             aux={"x": ("sequence<UUID>", [U(1), U(7)]),
+                                  "bare": ("UUID", U(1)),
+                                  "bareoff": ("Offset", ("Offset", U(2), 3)),
+                                  "baresym": ("UUID", U(5))})
         mods = [mA, mB] if order == "later" else [mB, mA]
         ir = irgen.mk_ir(14, modules=mods,
                          cfg=[(U(1), U(7), None), (U(7), U(1), (1, False, True))])
